@@ -18,6 +18,9 @@ from cmath import isclose, phase
 
 def apply_ctrl_state(self):
     if self.ctrl_state is not None:
+        if isinstance(self.ctrl_state, (int, np.integer)):
+            # decimal control state, as documented for MCU
+            self.ctrl_state = f"{self.ctrl_state:0{len(self.control_qubits)}b}"
         for i, ctrl in enumerate(self.ctrl_state[::-1]):
             if ctrl == '0':
                 self.definition.x(self.control_qubits[i])
